@@ -7,4 +7,5 @@ let table = [
   (5, FamSensor.run_fam_sensor);
   (6, FamFloor.run_fam_floor);
   (7, FamSys.run_fam_sys);
+  (8, FamLine.run_fam_line);
 ]
